@@ -498,24 +498,7 @@ func runStrategy(t *testing.T, id string) {
 	}
 	rec.Count("random_cases", nrand)
 
-	// minimum-observation thresholds
-	for _, s := range stratNames {
-		ls := strings.ToLower(s)
-		switch id {
-		case "C01":
-			if rec.Get("plans_produced/"+ls) < 1000 {
-				rec.Inconclusive("fewer than 1000 plans produced for %s", s)
-			}
-		case "C02":
-			if rec.Get("feasible/"+ls) < 1000 || rec.Get("infeasible/"+ls) < 1000 {
-				rec.Inconclusive("fewer than 1000 feasible or infeasible inputs for %s", s)
-			}
-		case "C03":
-			if rec.Get("rule_bound/"+ls) < 1000 {
-				rec.Inconclusive("balancing rule bound fewer than 1000 plans for %s", s)
-			}
-		}
-	}
+	// minimum-observation thresholds are run-level (all batches merged): MIN_OBSERVED in checks_table.py, applied by the driver
 	_ = sort.Strings
 }
 
